@@ -287,6 +287,14 @@ class RankEnv:
             v = hpmod.build(name, spec, self.ext)
             if isinstance(v, hpmod.Recording):
                 self.hp_objs[name] = v
+                # callables come in kinds: a callable object, a plain
+                # function, a functools.partial
+                kind = (p['model_seed'] + len(kw)) % 3
+                if kind == 1:
+                    v = (lambda s, _r=v: _r(s))
+                elif kind == 2:
+                    import functools
+                    v = functools.partial(hpmod.call_recording, v)
             kw[name] = v
         pl = p['placement']
         E = self.kfac.enums
@@ -497,6 +505,8 @@ class RankEnv:
         scales: list[float] = []
         for vr in vranks:
             for micro in range(acc):
+                if op.get('mid_eval') == micro and not self.emulate:
+                    self._eval_probe(it)
                 if scaling:
                     # a callable scaler may change at any time: every
                     # micro-batch runs under its own loss scale and is
@@ -757,6 +767,34 @@ class RankEnv:
                for e in self.sim.log[log0:]):
             self.bad('C03.collective_in_eval_pass')
         self.sim.probe('eval_pass')
+
+    def _eval_probe(self, it: int) -> None:
+        """An eval-mode forward + backward INSIDE a training iteration (a
+        validation probe between micro-batches): it must leave every bit of
+        K-FAC state alone and must not communicate.  Gradients are taken
+        with autograd.grad, so the accumulating .grad fields are untouched."""
+        model, pre, plan = self.model, self.pre, self.plan
+        before = _tensor_state(pre, self.kfac)
+        log0 = len(self.sim.log)
+        cap, self.capturing = getattr(self, 'capturing', False), False
+        model.eval()
+        x, y = models.batch(plan['model'], plan['data_seed'], 5000 + it,
+                            self.rank, 7)
+        out = models.forward(model, plan['model'], x)
+        loss = models.loss_fn(out, y, 1.0)
+        ps = [p for p in model.parameters() if p.requires_grad]
+        torch.autograd.grad(loss, ps, allow_unused=True)
+        model.train()
+        self.capturing = cap
+        diff = _state_equal(before, _tensor_state(pre, self.kfac))
+        if diff:
+            self.bad('C10.eval_changed_kfac_state', keys=diff[:6],
+                     where='inside_iteration')
+        me = self.rank
+        if any(len(e) > 8 and e[1] == me and e[8] == 'kfac'
+               for e in self.sim.log[log0:]):
+            self.bad('C03.collective_in_eval_pass', where='inside_iteration')
+        self.sim.probe('eval_pass_inside_iteration')
 
     def op_nop(self, op: dict[str, Any], rec: dict[str, Any]) -> None:
         return
